@@ -1,0 +1,17 @@
+//! Entry points for the external verification harness (feature `verif_hooks`).
+//!
+//! Nothing in this module is compiled unless the `verif_hooks` cargo feature is
+//! enabled; it only re-exposes crate-internal functionality so that a harness can
+//! drive it side by side with a formal model.
+
+use std::sync::atomic::Ordering;
+
+/// Raise the global interrupt flag, as the Ctrl-C handler of the REPL does.
+pub fn raise_interrupt() {
+    crate::machine::INTERRUPT.store(true, Ordering::Relaxed);
+}
+
+/// Clear the global interrupt flag (returns its previous value).
+pub fn clear_interrupt() -> bool {
+    crate::machine::INTERRUPT.swap(false, Ordering::Relaxed)
+}
